@@ -96,7 +96,11 @@ def _run_job(args):
     except BaseException as e:  # noqa: BLE001 — ShimGap/Budget are BaseExceptions by design
         res = {"status": "error", "detail": f"{type(e).__name__}: {e}",
                "trace": traceback.format_exc()[-3000:]}
-        if type(e).__name__ == "ShimGap":
+        if "_JobBudget" in f"{type(e).__name__}: {e}" or "_JobBudget" in res["trace"]:
+            # the budget alarm fired inside a solver call and surfaced wrapped in a ctypes error: it is a budget stop
+            res = {"status": "inconclusive", "obligations": 1, "discharged": 0, "inconclusive": 1, "reach": True,
+                   "sample": {"label": f"job stopped after {budget} s (wall budget)", "verdict": "unknown"}}
+        elif type(e).__name__ == "ShimGap":
             # the encoding could not follow the code (e.g. it now calls a routine the shim does not model).  Before this is
             # reported as a harness error, the obligation's definitional replay is run on the real code: a violation it
             # confirms is a violation (found by the replay oracle, not by a solver model - labelled as such); otherwise the
@@ -209,12 +213,19 @@ def finish(mod, pid, tier, seed, results, wall):
     errors = []
     seen_known = set()
     seen_viol = set()
+    # a configuration split over partitions of its decision tree ("part") is vacuous only if no partition reaches an obligation
+    def _grp(r):
+        return (r["ob"], json.dumps({k: v for k, v in r.get("cfg", {}).items() if k != "part"}, sort_keys=True))
+    part_reach = {}
+    for r in results:
+        if r.get("cfg", {}).get("part") and r["status"] != "error":
+            part_reach[_grp(r)] = part_reach.get(_grp(r), False) or r.get("reach") is not False
     for r in results:
         st = r["status"]
         if st == "error":
             errors.append(f"{r['ob']} {json.dumps(r['cfg'])}: {r.get('detail')}")
             continue
-        if r.get("reach") is False:
+        if r.get("reach") is False and not part_reach.get(_grp(r), False):
             errors.append(f"{r['ob']} {json.dumps(r['cfg'])}: vacuous harness (reachability witness unsat)")
         for cex in r.get("cex", []):
             if not cex.get("reproduced"):
